@@ -317,7 +317,7 @@ func ruleVerifyBeforeStore(c *eng.Ctx) {
 		}
 		cut := eng.Union(eng.ResultCut(true, 0, eq...), eng.NewCut().AddEdges(eng.FieldEdges(fn, noExtra, true)...))
 		for _, r := range eng.Returns(fn) {
-			if c.P.MayBeNil(r.Results[0]) {
+			if c.P.MayBeNil(eng.RetVal(r, 0)) {
 				c.MustPass(rule, "verifyCiphertext:nil-only-after-hash-compare", eng.Entry(fn), r, cut, "Hash(plaintext).Equal(id) is true (or NoExtraVerify)")
 			}
 		}
@@ -326,7 +326,7 @@ func ruleVerifyBeforeStore(c *eng.Ctx) {
 		eq := c.P.CallsTo(fn, "bytes.Equal")
 		cut := eng.Union(eng.ResultCut(true, 0, eq...), eng.NewCut().AddEdges(eng.FieldEdges(fn, noExtra, true)...))
 		for _, r := range eng.Returns(fn) {
-			if c.P.MayBeNil(r.Results[0]) {
+			if c.P.MayBeNil(eng.RetVal(r, 0)) {
 				c.MustPass(rule, "verifyUnpacked:nil-only-after-compare", eng.Entry(fn), r, cut, "bytes.Equal(plaintext, expected) is true (or NoExtraVerify)")
 			}
 		}
@@ -422,8 +422,8 @@ func ruleNilOnlyAfterHash(c *eng.Ctx) {
 		}
 		cut := eng.NewCut().AddEdges(hashEq...).AddEdges(cfgEdges...)
 		for _, r := range eng.Returns(fn) {
-			if len(r.Results) == 2 && c.P.MayBeNil(r.Results[1]) {
-				c.NilOnlyVia(rule, "LoadRaw:nil-error-only-after-hash-equal", r.Results[1], r, cut, "id == restic.Hash(buf) (config file exempt)")
+			if len(r.Results) == 2 && c.P.MayBeNil(eng.RetVal(r, 1)) {
+				c.NilOnlyVia(rule, "LoadRaw:nil-error-only-after-hash-equal", eng.RetVal(r, 1), r, cut, "id == restic.Hash(buf) (config file exempt)")
 			}
 		}
 	}
